@@ -38,7 +38,7 @@
 #include <time.h>
 #include <unistd.h>
 
-#define MAXV 64
+#define MAXV 8192
 #define MAXOUT (1 << 20)
 
 static int hexv(int c) { return c <= '9' ? c - '0' : (c | 32) - 'a' + 10; }
